@@ -21,12 +21,28 @@ func zzSetupClosed() *zzEnv {
 // VH_C12_one_gauge: one live gauge, one denomination, an arbitrary amount already released before
 // (inductive pre-state: the gauge account holds deposit - released), the real pullTokensFromGauges at an
 // arbitrary block time. Times in whole microseconds, duration below 2^43 us (~100 days .. see bounds).
-func VH_C12_one_gauge() {
+func VH_C12_one_gauge() { zzOneGauge(false) }
+
+// VH_C12_one_gauge_grid: the same contract with the duration and the elapsed time taken from a grid of
+// concrete values that includes sub-millisecond and sub-second remainders (the deposit stays arbitrary):
+// with concrete times the fixed-point arithmetic is linear in the deposit and every obligation is decided,
+// also for code that computes the fraction in another unit.
+func VH_C12_one_gauge_grid() { zzOneGauge(true) }
+
+func zzOneGauge(grid bool) {
 	e := zzSetupClosed()
 	A := zzverif.NondetRange("deposit", 1, 100_000_000_000_000_000)
 	startUs := zzverif.NondetRange("start.us", 0, 1<<50)
-	T := zzverif.NondetRange("duration.us", 0, 1<<45)
-	el := zzverif.NondetRange("elapsed.us", 0, 1<<46)
+	var T, el int64
+	if grid {
+		ts := []int64{1500, 2_000_700, 86_400_000_000, 2_592_000_000_000}
+		T = ts[zzverif.NondetLen("duration.grid", 0, len(ts)-1)]
+		es := []int64{700, 1_000_300, 43_200_000_001, 2_000_000_000_999}
+		el = es[zzverif.NondetLen("elapsed.grid", 0, len(es)-1)]
+	} else {
+		T = zzverif.NondetRange("duration.us", 0, 1<<45)
+		el = zzverif.NondetRange("elapsed.us", 0, 1<<46)
+	}
 	start := time.UnixMicro(startUs)
 	end := time.UnixMicro(startUs + T)
 	now := time.UnixMicro(startUs + el)
